@@ -253,13 +253,15 @@ func (e *vC27Env) outcome(sp *vSoConn, mk vC27Marks) []string {
 		l = append(l, fmt.Sprintf("channel %s: flags=%#x offset=%d epoch=%s expireAt=%d info=%s source=%d metaTTL=%d posCheck=%d pending=%v",
 			ch, x.flags, x.streamPosition.Offset, ep, exp, x.info, x.Source, x.metaTTLSeconds, pct, x.subscribingCh != nil))
 	}
-	for i, f := range t.frames[mk.frames:] {
+	npush := 0
+	for _, f := range t.frames[mk.frames:] {
 		if e.byID != "" && strings.Contains(string(f.Raw), e.byID) {
 			continue // join / leave push about the sibling: the two nodes of the double share no broker
 		}
 		raw := norm(string(f.Raw))
 		raw = strings.ReplaceAll(raw, e.epoch, "<cur>")
-		l = append(l, fmt.Sprintf("push %d: %s", i, raw))
+		l = append(l, fmt.Sprintf("push %d: %s", npush, raw))
+		npush++
 	}
 	l = append(l, fmt.Sprintf("unsubscribe events: %v", sp.unsubs))
 	l = append(l, fmt.Sprintf("disconnect events: %v", sp.discs))
